@@ -34,6 +34,12 @@ def dispatch(prop, tier, seed):
     if prop == "C14":
         from . import eng_exitstack
         return eng_exitstack.check(prop, tier, seed)
+    if prop == "C15":
+        from . import eng_decor
+        return eng_decor.check(prop, tier, seed)
+    if prop in ("C07", "C08"):
+        from . import eng_handles
+        return eng_handles.check(prop, tier, seed)
     if prop == "C09":
         from . import eng_tee
         return eng_tee.check(prop, tier, seed)
